@@ -3,12 +3,19 @@ import BSEModel.Manip
 namespace BSE
 variable {ν : Type}
 
+/-- `sh['function_type'].split('_')[0]` -/
+def baseType (ft : String) : String := (ft.splitOn "_").headD ""
+
+/-- a shell whose momenta are all below 2 carries no spherical/cartesian tag -/
+def lowType (ams : List Nat) (ft : String) : String :=
+  if ams ≠ [] ∧ ams.foldl max 0 < 2 then baseType ft else ft
+
 def splitFused (k : Nat) (sh : Shell ν) : List (Shell ν) × Shell ν :=
   let pairs := sh.am.zip sh.coefs
   let hi := pairs.filter (fun p => p.1 > k)
   let lo := pairs.filter (fun p => ¬ p.1 > k)
-  (hi.map (fun p => { sh with am := [p.1], coefs := [p.2] }),
-   { sh with am := lo.map (·.1), coefs := lo.map (·.2) })
+  (hi.map (fun p => { sh with am := [p.1], coefs := [p.2], ftype := lowType [p.1] sh.ftype }),
+   { sh with am := lo.map (·.1), coefs := lo.map (·.2), ftype := lowType (lo.map (·.1)) sh.ftype })
 
 /-- one loop iteration of uncontract_spdf, `acc` = `newshells` so far -/
 def spdfStep (k : Nat) (acc : List (Shell ν)) (sh : Shell ν) : List (Shell ν) :=
@@ -21,8 +28,8 @@ def pairFuncs (val : ν → Rat) (exps : List ν) (ps : List (Nat × List ν)) :
   ps.map (fun p => (p.1, colFn val exps p.2))
 
 /-- the functions of a shell assembled from (momentum, column) pairs -/
-theorem funcs_of_pairs (val : ν → Rat) (sh : Shell ν) (ps : List (Nat × List ν)) :
-    ({ sh with am := ps.map (·.1), coefs := ps.map (·.2) } : Shell ν).funcs val = pairFuncs val sh.exps ps := by
+theorem funcs_of_pairs (val : ν → Rat) (sh : Shell ν) (ft : String) (ps : List (Nat × List ν)) :
+    ({ sh with am := ps.map (·.1), coefs := ps.map (·.2), ftype := ft } : Shell ν).funcs val = pairFuncs val sh.exps ps := by
   unfold Shell.funcs pairFuncs
   simp only [List.length_map]
   match ps with
@@ -97,7 +104,7 @@ theorem funcSet_uncontractSpdf (val : ν → Rat) (k : Nat) (shells : List (Shel
     have hlo : (splitFused k sh).2.funcs val
         = pairFuncs val sh.exps ((sh.am.zip sh.coefs).filter (fun p => ¬ p.1 > k)) := by
       simp only [splitFused]
-      exact funcs_of_pairs val sh _
+      exact funcs_of_pairs val sh _ _
     have hhi : (∃ s ∈ (splitFused k sh).1, f ∈ s.funcs val)
         ↔ f ∈ pairFuncs val sh.exps ((sh.am.zip sh.coefs).filter (fun p => p.1 > k)) := by
       simp only [splitFused, List.mem_map, pairFuncs]
